@@ -6,7 +6,7 @@
    one G behaviour per probe schedule with the outcomes the specification accepts (acc) and the
    outcomes of the named deviation that differ from them (dev). *)
 EXTENDS Ports, TLC, Json
-CONSTANTS MaxR, MaxO, NegFds, DstHi, NPresent, Emitting
+CONSTANTS MaxR, MaxO, NegFds, DstHi, NPresent, Piped, Emitting
 VARIABLES present, redirs, ops
 vars == <<present, redirs, ops>>
 
@@ -22,8 +22,8 @@ Early == [early |-> TRUE, m1raise |-> FALSE]
 
 (* the form state is a function of the history (kept out of the TLC state to keep it small):
    st follows the specification, dv the early-close variant *)
-st == Ops(Redirs(InitForm(present), redirs, Spec0), ops)
-dv == Ops(Redirs(InitForm(present), redirs, Early), ops)
+st == Ops(Redirs(InitForm(present, Piped), redirs, Spec0), ops)
+dv == Ops(Redirs(InitForm(present, Piped), redirs, Early), ops)
 
 PresentConfigs == << <<TRUE, FALSE>>, <<TRUE, TRUE>>, <<FALSE, FALSE>> >>
 Init == /\ present \in {PresentConfigs[i] : i \in 1..NPresent}
@@ -65,12 +65,12 @@ RaiseStops == st.exc = "redir" => st.log = <<>>
 Var(e, m) == [early |-> e, m1raise |-> m]
 Dedup(q) == IF Len(q) = 2 /\ q[1] = q[2] THEN <<q[1]>> ELSE q
 Beh(k) ==
-  LET R(e, m) == Compact(Run(present, redirs, Probes[k], Var(e, m)))
+  LET R(e, m) == Compact(Run(present, Piped, redirs, Probes[k], Var(e, m)))
       acc == IF st.m1 THEN Dedup(<<R(FALSE, FALSE), R(FALSE, TRUE)>>) ELSE <<R(FALSE, FALSE)>>
       dev == IF ~st.shared THEN <<>>
              ELSE SelectSeq(IF st.m1 THEN Dedup(<<R(TRUE, FALSE), R(TRUE, TRUE)>>) ELSE <<R(TRUE, FALSE)>>,
                             LAMBDA x : \A j \in 1..Len(acc) : x # acc[j])
-  IN [present |-> present, redirs |-> redirs, probe |-> k, acc |-> acc, dev |-> dev]
+  IN [present |-> present, piped |-> Piped, redirs |-> redirs, probe |-> k, acc |-> acc, dev |-> dev]
 Emit == (Emitting /\ ops = <<>>) => \A k \in 1..Len(Probes) : PrintT(ToJson(Beh(k)))
 ASSUME Emitting => PrintT(ToJson([probes |-> Probes]))
 =============================================================================
